@@ -133,6 +133,10 @@ func (s *SwapService) RecoverSwaps() error {
 				swap = swapOutReceiverFromStore(swap, s.swapServices)
 			}
 			swap.stateChange = sync.NewCond(&swap.stateMutex)
+			// LastErr is not part of the stored record; LastErrString is.
+			if swap.Data.LastErr == nil && swap.Data.LastErrString != "" {
+				swap.Data.LastErr = errors.New(swap.Data.LastErrString)
+			}
 
 			err := s.lockSwap(swap.SwapId.String(), swap.Data.GetScid(), swap)
 			if err != nil {
